@@ -10,15 +10,16 @@ import (
 )
 
 type traced struct {
-	op      string
-	user    string
-	admin   bool
-	res     string
-	pre     []sent
-	post    []sent
-	events  []string
-	killed  bool
-	rawN    int
+	op     string
+	user   string
+	admin  bool
+	res    string
+	pre    []sent
+	post   []sent
+	events []string
+	killed bool
+	rawN   int
+	rawUA  [][2]string // (class U|A, the path string exactly as the process passed it to the kernel)
 }
 
 func entTok(s []sent, name string) string {
@@ -53,8 +54,15 @@ func (c *ctx) traceOp(cfg *scfg, base, op, user string, pw []byte, admin bool, i
 		t.res = "killed"
 	}
 	t.rawN = len(evs)
-	cl := &classifier{base: base, user: user}
+	cl := &classifier{base: filepath.Clean(base), user: user}
 	t.events = abstractEvents(evs, cl)
+	for _, e := range evs {
+		for _, a := range strArgs(e.args) {
+			if k := cl.class(string(a)); k == "U" || k == "A" {
+				t.rawUA = append(t.rawUA, [2]string{k, string(a)})
+			}
+		}
+	}
 	return t, nil
 }
 
@@ -176,15 +184,31 @@ func suiteC03tr(c *ctx) {
 			base := filepath.Join(sandbox, "store")
 			os.MkdirAll(filepath.Join(sandbox, "sibling-store"), 0700)
 			populate(r, cfg, base, false)
+			// the base directory as the store is given it: sometimes a string that needs cleaning
+			baseArg := base
+			if store_validName(name) {
+				os.MkdirAll(filepath.Join(sandbox, "x"), 0700)
+				baseArg = []string{base, base + "/", sandbox + "//store", sandbox + "/x/../store", sandbox + "/./store/.", base + "//"}[r.Intn(6)]
+			}
 			set := cfg.get(cfg.def)
 			os.WriteFile(filepath.Join(sandbox, "sibling-store", "bob.user"), formatRecord(set, 1700000000, r.Bytes(set.saltLen()), []byte("x")), 0600)
 			os.WriteFile(filepath.Join(sandbox, "store.admin"), formatRecord(set, 1700000000, r.Bytes(set.saltLen()), []byte("x")), 0600)
-			t, err := c.traceOp(cfg, base, op, name, []byte("Some-Passw0rd"), true, "", idx)
+			t, err := c.traceOp(cfg, baseArg, op, name, []byte("Some-Passw0rd"), true, "", idx)
 			if err != nil {
 				c.emit("law.harness.strace_runs "+op, "f")
 				continue
 			}
 			c.emit("tr.c03 "+t.payload(), "ok")
+			// the file-name computation: what the process handed to the kernel for the user's files
+			// is the model's getFilename (filepath.Join(BaseDir, user) + ext) of the same strings
+			seen := map[string]bool{}
+			for _, ua := range t.rawUA {
+				if seen[ua[0]+ua[1]] {
+					continue
+				}
+				seen[ua[0]+ua[1]] = true
+				c.emit(fmt.Sprintf("path.file %s %s %s", xs(baseArg), xs(name), tf(ua[0] == "A")), xs(ua[1]))
+			}
 			os.RemoveAll(sandbox)
 		}
 	}
